@@ -320,7 +320,10 @@ class Model:
             key = part[(st["target"], st["corner"])]
             for (nn, cc), kk in part.items():
                 if kk == key:
-                    self.pending[(nn, cc)] = list(st["to"])
+                    if list(st["to"]) == list(self.pos[nn][cc]):
+                        self.pending.pop((nn, cc), None)  # moved back to where the model has it
+                    else:
+                        self.pending[(nn, cc)] = list(st["to"])
             ann["block_index"] = self.assembled_ops.index(st["target"])
         elif op == "backport":
             if not self.movable:
@@ -335,6 +338,11 @@ class Model:
             ann["expect_points"] = {n: [list(p) for p in pts] for n, pts in self.pos.items()}
             ann["deleted"] = list(self.deleted)
             ann["had_block"] = had_block
+        elif op == "write_transient":
+            # a write while vertices are displaced: what it produces is not stated, only that it
+            # must not damage anything - it may fail in grading; the next checked write tells
+            if not self.movable or self.stale:
+                raise IllFormed("write_transient")
         elif op == "write":
             if self.stale or self.pending or not self.flat_live():
                 raise IllFormed("write")
@@ -412,6 +420,20 @@ def gen_history(seed: int, faults: str) -> Dict[str, Any]:
             victim_chop = [i for i, c in enumerate(by[victim]["chops"]) if c["axis"] == a][0]
         else:
             scenario = "plain"
+    # transient grading failure: one block direction is chopped by count and a first-cell size just
+    # below the average edge length; shortening one of its edges makes that unrealisable
+    transient = None
+    if scenario == "plain" and rs.chance(0.2):
+        cands = [(b, ch) for b in base["blocks"] for ch in b["chops"] if ch["axis"] in (1, 2)]
+        if cands:
+            b, ch = rs.pick(cands)
+            pts = [base["points"][p] for p in b["corners"]]
+            lens = [models.dist(pts[u], pts[v]) for (u, v) in hexref.AXIS_EDGES[ch["axis"]]]
+            avg = sum(lens) / 4
+            ch["args"] = {"count": ch["args"]["count"], "start_size": round(0.96 * avg, 6)}
+            u, v = hexref.AXIS_EDGES[ch["axis"]][0]
+            transient = {"block": b["name"], "corner": v, "from": list(pts[v]),
+                         "to": [round(pts[v][k] + 0.4 * (pts[u][k] - pts[v][k]), 6) for k in range(3)]}
     for n in names:
         for st in construction_ops(by[n], base["points"], victim_chop if n == victim else None):
             do(st)
@@ -440,6 +462,9 @@ def gen_history(seed: int, faults: str) -> Dict[str, Any]:
         names = names + ["s0"]
     order = rs.shuffled(names)
     first = rs.randint(1, len(names))
+    if transient is not None and transient["block"] not in order[:first]:
+        order.remove(transient["block"])
+        order.insert(0, transient["block"])
     if victim is not None and victim not in order[:first]:
         order.remove(victim)
         order.insert(0, victim)
@@ -461,6 +486,9 @@ def gen_history(seed: int, faults: str) -> Dict[str, Any]:
             cand.append(("assemble", 3))
             if p_fault:
                 cand.append(("crash_in_assemble", 10 * p_fault))
+        if transient is not None and m.movable and not m.stale and not m.pending and transient["block"] in m.assembled_ops \
+                and transient["block"] not in m.deleted:
+            cand.append(("transient_failure", 4))
         if m.movable:
             cand.append(("move", 3))
             cand.append(("backport", 3))
@@ -497,6 +525,14 @@ def gen_history(seed: int, faults: str) -> Dict[str, Any]:
             base_pos = m.pending.get((n, c)) or m.pos[n][c]
             to = [round(base_pos[k] + rs.uniform(-0.08, 0.08), 6) for k in range(3)]
             do({"op": "move_corner", "target": n, "corner": c, "to": to})
+        elif kind == "transient_failure":
+            # shorten the edge, try to write (grading cannot realise the chop), put it back, write
+            cur = m.pos[transient["block"]][transient["corner"]]
+            do({"op": "move_corner", "target": transient["block"], "corner": transient["corner"], "to": list(transient["to"])})
+            do({"op": "write_transient"})
+            do({"op": "move_corner", "target": transient["block"], "corner": transient["corner"], "to": list(cur)})
+            if not m.pending:
+                do({"op": "write", "path": DICT})
         elif kind == "backport":
             do({"op": "backport"})
         elif kind == "crash_in_backport":
@@ -704,6 +740,18 @@ def run_history(hist: Dict[str, Any]) -> Dict[str, Any]:
                         world.count("fault:crash-in-backport")
                         world.event("crash-backport", st["at"], ann["phase"])
                     prev = op
+                    continue
+                if op == "write_transient":
+                    try:
+                        it.step(i, {"op": "write", "path": DICT + ".transient"})
+                        world.event("transient-write", "ok")
+                    except seams.SimCrash:
+                        raise
+                    except Exception as e:
+                        stats["transient_write_failed"] = stats.get("transient_write_failed", 0) + 1
+                        world.event("transient-write", type(e).__name__)
+                    prev = "write-failed"
+                    last_write_ok = None
                     continue
                 if op == "move_corner":
                     bi = ann["block_index"]
